@@ -4,8 +4,12 @@
     - [ideal_push]/[ideal_pop]: a bounded priority set that keeps the [depth] best
       elements (drops the worst one on overflow) and pops a least element. The
       monitors compare the real pops with it.
+    - [d_best]: the [depth] smallest elements of everything pushed so far;
+      [pq_push_all]: the model's queue after a sequence of pushes.
     - [C16_decision_stmt depth]: the decision-level statement for the allocate
-      loop of Model/JobOrder.v with [MaxJobsQueueDepth = depth]. *)
+      loop of Model/JobOrder.v with [MaxJobsQueueDepth = depth];
+      [C16_decision_stmt_any_repush] is the same statement without the hypotheses
+      that tie a re-pushed job to the job that was popped. *)
 From Coq Require Import List ZArith Bool.
 From KaiV Require Import Model.JobOrder.
 Import ListNotations.
@@ -32,6 +36,22 @@ Section Ideal.
     | [] => (None, [])
     | x :: r => (Some x, r)
     end.
+
+  (** insertion sort of everything pushed, and its [depth] first elements *)
+  Definition sort_by (xs : list A) : list A := fold_left (fun acc x => insert_sorted x acc) xs [].
+  Definition d_best (depth : Z) (xs : list A) : list A :=
+    if depth =? -1 then sort_by xs else firstn (Z.to_nat depth) (sort_by xs).
+
+  (** the real queue (model of PriorityQueue.Push) after pushing [xs] in this order *)
+  Fixpoint pq_push_all (depth : Z) (l : list A) (xs : list A) : res (list A) :=
+    match xs with
+    | [] => Ok l
+    | x :: r => l' <- pq_push less depth l x ;; pq_push_all depth l' r
+    end.
+
+  (** [less] is total on the elements of [xs] (no two different elements tie) *)
+  Definition total_on (xs : list A) : Prop :=
+    forall a b, In a xs -> In b xs -> a = b \/ less a b = true \/ less b a = true.
 End Ideal.
 
 (** The decision-level statement. [attempt] is the placement oracle over an
@@ -39,11 +59,43 @@ End Ideal.
     action; [a] and [b] are two jobs of one leaf queue for which "fits" is the same
     monotone predicate of the remaining capacity (identical template, gang shape and
     preemptibility), and the comparator chain puts [a] first (higher priority, or
-    equal priority and older). If the action completes and places [b], it places [a]. *)
+    equal priority and older). If the action completes and places [b], it places [a].
+
+    [a] and [b] are pending jobs of the snapshot ([jobs], distinct UIDs). The job
+    that allocate.Execute pushes back when tasks remain is the popped
+    *PodGroupInfo itself, so [repush_same_job]: it keeps queue and UID (its
+    priority, creation time and elastic state may be anything). With a finite depth
+    these hypotheses are needed: an oracle that re-pushes a foreign job can fill a
+    queue with jobs that never were pending ([C16_decision_stmt_any_repush] is
+    refuted for depth 1 in Properties/C16.v); with unlimited depth they are not. *)
 Definition fits {C : Type} (attempt : job -> C -> option (C * option job)) (j : job) (c : C) : bool :=
   match attempt j c with Some _ => true | None => false end.
 
+Definition repush_same_job {C : Type} (attempt : job -> C -> option (C * option job)) : Prop :=
+  forall j c c' j', attempt j c = Some (c', Some j') -> j_queue j' = j_queue j /\ j_uid j' = j_uid j.
+
 Definition C16_decision_stmt (depth : Z) : Prop :=
+  forall (qs : list qinfo) (qord : Z -> Z -> option job -> option job -> bool)
+         (C : Type) (attempt : job -> C -> option (C * option job)) (cle : C -> C -> Prop)
+         (a b : job) (fuel : nat) (jobs : list job) (c0 : C) (out : list (job * bool)),
+    (forall c, cle c c) ->
+    (forall c1 c2 c3, cle c1 c2 -> cle c2 c3 -> cle c1 c3) ->
+    (forall j c c' r, attempt j c = Some (c', r) -> cle c' c) ->
+    (forall c c', cle c' c -> fits attempt a c' = true -> fits attempt a c = true) ->
+    (forall c, fits attempt a c = fits attempt b c) ->
+    repush_same_job attempt ->
+    j_queue a = j_queue b ->
+    job_less a b = true ->
+    NoDup (map j_uid jobs) ->
+    In a jobs -> In b jobs -> queue_ok qs (j_queue a) = true ->
+    allocate qs qord depth attempt fuel jobs c0 = Ok out ->
+    In (b, true) out -> In (a, true) out.
+
+(** the property for every MaxJobsQueueDepth (a theorem: Properties/C16.v) *)
+Definition C16_finite_depth : Prop := forall depth, -1 <= depth -> C16_decision_stmt depth.
+
+(** the same for an oracle that may re-push any job, [b] not necessarily pending *)
+Definition C16_decision_stmt_any_repush (depth : Z) : Prop :=
   forall (qs : list qinfo) (qord : Z -> Z -> option job -> option job -> bool)
          (C : Type) (attempt : job -> C -> option (C * option job)) (cle : C -> C -> Prop)
          (a b : job) (fuel : nat) (jobs : list job) (c0 : C) (out : list (job * bool)),
@@ -57,6 +109,3 @@ Definition C16_decision_stmt (depth : Z) : Prop :=
     In a jobs -> queue_ok qs (j_queue a) = true ->
     allocate qs qord depth attempt fuel jobs c0 = Ok out ->
     In (b, true) out -> In (a, true) out.
-
-(** for every queue depth (refuted for finite depths, see Properties/C16.v) *)
-Definition C16_finite_depth : Prop := forall depth, -1 <= depth -> C16_decision_stmt depth.
